@@ -54,10 +54,14 @@ def run(ctx):
     ctx.rule("R07.3", "running current point, loop siblings, smooth shorthand")
     ctx.rule("R07.4", "number format precision")
     ctx.rule("R07.5", "delegation to svg_d")
+    ctx.rule("R07.6", "the reader gives the T/S shorthand the meaning the writer assumes: reflection only after a curve of the same degree (obligations shared with C01 R01.5)")
     reader = reader_table(ctx)
     writers(ctx, reader)
     svg_d(ctx)
     delegation(ctx)
+    from . import c01
+
+    c01.smooth_degree(ctx.renamed("R07.6"))
 
 
 # --------------------------------------------------------------------------- reader side
